@@ -36,8 +36,10 @@ class PID_PM(BasePID):
             indexes = [p_s_g_t[0].outcomes.index((t,)) for p_s_g_t in p_s_g_ts]
             return min(-np.log2(p_s_g_ts[i][1][j][(e,)]) for i, (e, j) in enumerate(zip(outcome[:-1], indexes)))
 
-        r_plus = np.nansum([dist[outcome] * min_h_s(outcome) for outcome in dist.outcomes])
+        support = [outcome for outcome in dist.outcomes if dist[outcome] > 0]
 
-        r_minus = np.nansum([dist[outcome] * min_h_s_g_t(outcome) for outcome in dist.outcomes])
+        r_plus = np.nansum([dist[outcome] * min_h_s(outcome) for outcome in support])
+
+        r_minus = np.nansum([dist[outcome] * min_h_s_g_t(outcome) for outcome in support])
 
         return r_plus - r_minus
